@@ -38,15 +38,12 @@ EXPECTED_REFUTATIONS = {
 }
 
 
-def _model_runs(thorough: bool):
-  """Exhaustive TLC runs (in a worker thread, while the main thread replays simulations)."""
+def _model_runs(cfgs):
+  """Exhaustive TLC runs (in worker threads, while the main thread replays simulations)."""
   w = max(2, tlc.DEFAULT_WORKERS // 2)
   res = {}
-  cfgs = ['G02_quick.cfg', 'G02_diag.cfg', 'G02_root.cfg', 'G02_cache_flush.cfg'] + (['G02_thorough.cfg', 'G02_root_thorough.cfg'] if thorough else [])
   for cfg in cfgs:
-    res[cfg] = tlc.run('Inferred', cfg, timeout=1500, workers=w)
-  for cfg in EXPECTED_REFUTATIONS:
-    res[cfg] = tlc.run('Inferred', cfg, timeout=600, workers=w, allow_violation=True)
+    res[cfg] = tlc.run('Inferred', cfg, timeout=1500, workers=w, allow_violation=cfg in EXPECTED_REFUTATIONS)
   return res
 
 
@@ -57,15 +54,20 @@ def run(chk):
               'reads compared with the TLC observation table; distinct = distinct action sequences with >= 1 replayed step')
   chk.assumptions += ['leaf values are small ints', 'one name never holds both placeholder flavours',
                       'only detached roots are attached (relocate-or-copy of attached nodes is C01/C07 territory)']
-  with ThreadPoolExecutor(max_workers=1) as ex:
-    fut = ex.submit(_model_runs, thorough)
+  group_a = ['G02_quick.cfg', 'G02_diag.cfg', 'G02_root.cfg', 'G02_mirror.cfg', 'G02_acyclic.cfg'] + \
+      (['G02_root_thorough.cfg'] if thorough else [])
+  group_b = ['G02_cache_flush.cfg', 'G02_cache_naive.cfg'] + (['G02_thorough.cfg'] if thorough else [])
+  with ThreadPoolExecutor(max_workers=2) as ex:
+    futs = [ex.submit(_model_runs, group_a), ex.submit(_model_runs, group_b)]
     hits = {}
     plan = ([('G02_sim.cfg', 200, 30, 1), ('G02_sim_root.cfg', 100, 30, 1)] if not thorough else
-            [('G02_sim.cfg', 6000, 40, 8), ('G02_sim_root.cfg', 3000, 40, 4)])
+            [('G02_sim.cfg', 4000, 40, 8), ('G02_sim_root.cfg', 2000, 40, 4)])
     for cfg, num, depth, batches in plan:
       for k, v in inferred.replay_simulated(chk, cfg, num, depth, chk.seed, batches=batches).items():
         hits[k] = hits.get(k, 0) + v
-    results = fut.result()
+    results = {}
+    for f in futs:
+      results.update(f.result())
 
   # the model: the intended semantics satisfies every law; the two negative controls are refuted
   for cfg, r in results.items():
